@@ -16,44 +16,67 @@ inductive DOut where
   | values (vs : List Val)
   | mtch (m : Option (MNode Val))
 
-/-- `descriptor.__get__(instance)`: `getter(expression, instance.data)` -/
-def descrGet (g : Getter) (stepsOf : Heap → List (Step Val)) (h : Heap) (data : Val) : Except ApiErr DOut :=
+/-- `descriptor.__get__(instance)`: `getter(expression, instance.data)`, where the instance's
+data is the JSON value — or, for the nested document of an attribute typed through
+`getter=get_match`, a `Match` (then every lookup is a search from that Match) -/
+def descrGetS (g : Getter) (stepsOf : Heap → List (Step Val)) (h : Heap) (src : Src Val) : Except ApiErr DOut :=
   match g with
   | .get =>
-    match getMatch (wcx h) (stepsOf h).toArray (.doc data) true with
+    match getMatch (wcx h) (stepsOf h).toArray src true with
     | .ok (some m) => .ok (.value m.data)
     | .ok none => .error (.bug "must_match")
     | .error e => .error e
   | .getMatch =>
-    match getMatch (wcx h) (stepsOf h).toArray (.doc data) true with
+    match getMatch (wcx h) (stepsOf h).toArray src true with
     | .ok m => .ok (.mtch m)
     | .error e => .error e
   | .find =>
-    match drain (wcx h) (stepsOf h).toArray (.doc data) 100000 freshIter with
+    match drain (wcx h) (stepsOf h).toArray src 100000 freshIter with
     | (ms, none) => .ok (.values (ms.map MNode.data))
     | (_, some e) => .error (.exc e)
 
+def descrGet (g : Getter) (stepsOf : Heap → List (Step Val)) (h : Heap) (data : Val) : Except ApiErr DOut :=
+  descrGetS g stepsOf h (.doc data)
+
 /-- `descriptor.__set__(instance, v)`: `setter(expression, to_json_value(v), instance.data)`,
 never cascading -/
+def descrSetS (c : Conv) (stepsOf : Heap → List (Step Val)) (h : Heap) (src : Src Val) (wrapped : Val) :
+    Heap × Except ApiErr (MNode Val) :=
+  setMatch stepsOf src false h (c.unwrap wrapped)
+
 def descrSet (c : Conv) (stepsOf : Heap → List (Step Val)) (h : Heap) (data : Val) (wrapped : Val) :
     Heap × Except ApiErr (MNode Val) :=
-  setMatch stepsOf (.doc data) false h (c.unwrap wrapped)
+  descrSetS c stepsOf h (.doc data) wrapped
 
 /-- iterator-typed attributes reject assignment: `to_json_value` raises SetError before the
 setter is reached -/
 def descrSetIter (h : Heap) : Heap × Except ApiErr (MNode Val) := (h, .error .setError)
 
 /-- `descriptor.__delete__(instance)`: `pop(expression, instance.data)` -/
+def descrDelS (stepsOf : Heap → List (Step Val)) (h : Heap) (src : Src Val) : Heap × Except ApiErr Val :=
+  pop stepsOf src none h
+
 def descrDel (stepsOf : Heap → List (Step Val)) (h : Heap) (data : Val) : Heap × Except ApiErr Val :=
-  pop stepsOf (.doc data) none h
+  descrDelS stepsOf h (.doc data)
+
+/-- an attribute typed through `getter=get_match`: the nested document wraps the `Match`
+itself, so its own attributes are searched from that Match and may climb above it -/
+def typedMatch (stepsOf : Heap → List (Step Val)) (h : Heap) (src : Src Val) : Except ApiErr (Src Val) :=
+  match getMatch (wcx h) (stepsOf h).toArray src true with
+  | .ok (some m) => .ok (.nested m)
+  | .ok none => .error (.bug "must_match")
+  | .error e => .error e
 
 /-- a typed attribute wraps the selected JSON node itself: the nested document's `data` is
 the very value the getter returned (for a container: the same object reference) -/
-def typedData (g : Getter) (stepsOf : Heap → List (Step Val)) (h : Heap) (data : Val) : Except ApiErr Val :=
-  match descrGet g stepsOf h data with
+def typedDataS (g : Getter) (stepsOf : Heap → List (Step Val)) (h : Heap) (src : Src Val) : Except ApiErr Val :=
+  match descrGetS g stepsOf h src with
   | .ok (.value v) => .ok v
   | .ok _ => .error (.bug "typed attribute with a non-get getter")
   | .error e => .error e
+
+def typedData (g : Getter) (stepsOf : Heap → List (Step Val)) (h : Heap) (data : Val) : Except ApiErr Val :=
+  typedDataS g stepsOf h (.doc data)
 
 /-- deprecated `pprop`: read = `get(path, data, default=None)` -/
 def ppropGet (stepsOf : Heap → List (Step Val)) (h : Heap) (data : Val) : Except ApiErr Val :=
